@@ -1,5 +1,7 @@
 pub mod c01;
 pub mod c02;
+pub mod c03;
+pub mod c04;
 
 use crate::report::Report;
 
@@ -32,6 +34,8 @@ pub fn run(id: &str, report: &mut Report, replay: Option<&str>) {
     match id {
         "C01" => c01::run(report, replay_val.as_ref()),
         "C02" => c02::run(report, replay_val.as_ref()),
+        "C03" => c03::run(report, replay_val.as_ref()),
+        "C04" => c04::run(report, replay_val.as_ref()),
         _ => {
             eprintln!("unknown property {}", id);
             std::process::exit(2);
